@@ -11,7 +11,8 @@ import (
 // TestCoverageBatch runs a small in-process batch of every profile; it
 // exists to measure which statements of akalin/gopar the simulated
 // workloads execute:
-//   go test -tags verif -run TestCoverageBatch -coverpkg=github.com/akalin/gopar/... -coverprofile=/dev/shm/cov.txt ./engine
+//
+//	go test -tags verif -run TestCoverageBatch -coverpkg=github.com/akalin/gopar/... -coverprofile=/dev/shm/cov.txt ./engine
 func TestCoverageBatch(t *testing.T) {
 	if os.Getenv("VERIF_COVERAGE") == "" {
 		t.Skip("set VERIF_COVERAGE=1")
